@@ -80,7 +80,7 @@ type ifStmt struct {
 
 func (p *ifStmt) Then(cb *CodeBuilder, src ...ast.Node) {
 	cond := cb.stk.Pop()
-	if !types.AssignableTo(cond.Type, types.Typ[types.Bool]) {
+	if !types.AssignableTo(cond.Type, types.Typ[types.Bool]) && !isBool(cb, cond) {
 		cb.panicCodeError(getPos(src), getEnd(src), "non-boolean condition in if statement")
 	}
 	p.cond = cond.Val
@@ -425,7 +425,7 @@ type forStmt struct {
 func (p *forStmt) Then(cb *CodeBuilder, src ...ast.Node) {
 	cond := cb.stk.Pop()
 	if cond.Val != nil {
-		if !types.AssignableTo(cond.Type, types.Typ[types.Bool]) {
+		if !types.AssignableTo(cond.Type, types.Typ[types.Bool]) && !isBool(cb, cond) {
 			panic("TODO: for statement condition is not a boolean expr")
 		}
 		p.cond = cond.Val
